@@ -376,7 +376,7 @@ fn stage_pinned(i: &Input, c: &mut Case) -> Result<(), String> {
 pub const STAGES: &[Stage] = &[Stage { name: "schedules", f: stage }, Stage { name: "pinned_straddle", f: stage_pinned }];
 
 pub fn run(rc: &mut RunCtx) {
-    rc.run_pt(STAGES[0], rc.pick(30_000, 800_000), (96, 600));
+    rc.run_pt(STAGES[0], rc.pick(60_000, 1_500_000), (96, 600));
     rc.require_label("schedules", "two_or_more_reads", 100_000);
     rc.require_label("schedules", "has_pending", 100_000);
     rc.require_label("schedules", "buffered_set", 50_000);
